@@ -141,6 +141,18 @@ def enc_twice_jobs():
             tier = "quick" if (bi in (0, 1) or pi in (0, 1)) and not (bi == 3 and pi > 1) else "thorough"
             jobs.append(Job("enc.cpp", "h_enc_twice", defs=dd, unwind=1200, tier=tier, in_max=enc_in_max(d) + 160, mem_gb=4,
                             sym=ENC_SYM + "; the earlier call's payload, timestamp and flags; its version is the batch's version xor 0x5A", outside=ENC_OUT))
+    # differential form (fresh vs used real encoder): any configuration, incl. minimum > maximum
+    diffs = [(enc_shape([8], maxb=40, minb=48), {"PL0": 8, "PMIN": 64, "PMAX": 100}, "quick"),
+             (enc_shape([8], maxb=40), {"PL0": 8, "PMIN": 64, "PMAX": 64}, "quick"),
+             (enc_shape([41], maxb=40), {"PL0": 50, "PMIN": 0, "PMAX": 48, "PT0": 3}, "quick"),
+             (enc_shape([8, 8], [1, 3], maxb=64, minb=30), {"PL0": 90, "PMIN": 50, "PMAX": 50}, "thorough"),
+             (enc_shape([17], maxb=40, minb=44), {"PL0": 8, "PMIN": 41, "PMAX": 30}, "thorough"),
+             (enc_shape([], api=1), {"PL0": 8, "PMIN": 64, "PMAX": 100}, "thorough")]
+    for d, pr, tier in diffs:
+        dd = dict(d)
+        dd.update(pr)
+        jobs.append(Job("enc.cpp", "h_enc_diff", defs=dd, unwind=1200, tier=tier, in_max=2 * enc_in_max(d) + 200, mem_gb=4,
+                        sym=ENC_SYM + "; the earlier call's payload and timestamp", outside=ENC_OUT + "; earlier-call configurations are the listed (PMIN, PMAX) pairs"))
     return jobs
 
 
@@ -473,7 +485,7 @@ def c14_jobs():
         for lb in (-1, 0, 1, 8):
             quick = (la, lb) in ((8, 8), (-1, -1), (0, 0), (8, 1), (-1, 0))
             jobs.append(Job("c14.cpp", "h_packet_eq", defs={"LA": la, "LB": lb}, tier="quick" if quick else "thorough", sym=sym, **common))
-    for la in (1, 8):
+    for la in (0, 1, 8):
         jobs.append(Job("c14.cpp", "h_packet_assign_diff", defs={"LA": la}, tier="quick", sym="message bytes, which field differs", **common))
     for la in (0, 1, 8):
         for lb in (0, 1, 8):
